@@ -263,6 +263,13 @@ def e2e_cases(ctx):
     # every project is built under options that must not matter for well-formedness
     for _, s in cases:
         s["opts"] = dagproj.gen_opts(rng)
+        if "pstyle" not in s["tasks"][0]:
+            dagproj.add_product_styles(rng, s)
+        # about a third of the projects goes through the programmatic interface build(tasks=[…]) (functions of ONE module, either order)
+        if rng.random() < 0.33:
+            s["iface"] = rng.choice(["tasks-fwd", "tasks-rev"])
+            for t in s["tasks"]:
+                t["module"] = 0
     return cases
 
 
@@ -275,7 +282,16 @@ def run_one_e2e(server, spec):
         pre = dagproj.snapshot(root)
         project.clear_log(root)
         opts = dict(spec.get("opts") or {})
-        obs = server.build(root, opts)
+
+        def iface_args(sp):
+            if sp.get("iface", "paths") == "paths":
+                return {}
+            names = [project.tname(t["id"]) for t in sorted(sp["tasks"], key=lambda t: t["id"])]
+            if sp["iface"] == "tasks-rev":
+                names.reverse()
+            return {"tasks_from": {"module": "m0.task_m0" if sp.get("subdirs") else "task_m0", "names": names}}
+
+        obs = server.build(root, opts, **iface_args(spec))
         obs["log"] = project.read_log(root)
         rec["obs1"] = obs
         rec["untouched"] = dagproj.snapshot(root) == pre
@@ -285,7 +301,7 @@ def run_one_e2e(server, spec):
             dagproj.materialise(root, spec2, stale=False)
             rec["existing2"] = [n for n in {x for t in spec2["tasks"] for x in t["deps"] + t["prods"]} if dagproj.node_file(root, spec2, n).exists()]
             project.clear_log(root)
-            obs2 = server.build(root, dict(opts, dry_run=False))
+            obs2 = server.build(root, dict(opts, dry_run=False), **iface_args(spec2))
             obs2["log"] = project.read_log(root)
             rec["obs2"] = obs2
         return rec
@@ -339,7 +355,7 @@ def check_e2e(ctx, cases):
         canon = ["e2e", [[t["id"], t["module"], t["deps"], t["prods"], t["after"], t.get("after_style"), sorted(t.get("spell", {}).items())] for t in s["tasks"]],
                  s.get("py"), s.get("stale"), s.get("pk"), s.get("dirs"), s.get("subdirs"), sorted((s.get("opts") or {}).items()),
                  sorted((s.get("pyval") or {}).items()), [t.get("dep_form") for t in s["tasks"]], [t.get("prod_style") for t in s["tasks"]],
-                 [[t.get("marks"), t.get("force_task")] for t in s["tasks"]]]
+                 [[t.get("marks"), t.get("force_task"), sorted((t.get("pstyle") or {}).items())] for t in s["tasks"]], s.get("iface")]
         ctx.case(canon, an["ill"] or any(t["deps"] or t["after"] for t in s["tasks"]),
                  {"layer": "e2e", "tasks": [{k: t[k] for k in ("id", "deps", "prods", "after", "spell") if t.get(k) or k == "id"} for t in s["tasks"]],
                   "py": s.get("py"), "ill_formed": an["ill"], "exit": obs.get("exit"), "second_build_exit": rec.get("obs2", {}).get("exit")})
@@ -349,6 +365,7 @@ def check_e2e(ctx, cases):
         for k_, v_ in (s.get("opts") or {}).items():
             ctx.dist[f"e2e:opt:{k_}={v_}"] += 1
         ctx.dist[f"e2e:subdirs={bool(s.get('subdirs'))}"] += 1
+        ctx.dist[f"e2e:interface={s.get('iface', 'paths')}"] += 1
         used = {x for t in s["tasks"] for x in t["deps"] + t["prods"]}
         for kind in ("py", "pk", "dirs"):
             if used & set(s.get(kind, [])):
@@ -360,7 +377,7 @@ def check_e2e(ctx, cases):
         if used & {int(k) for k in (s.get("pyval") or {})}:
             ctx.dist["e2e:has-py-with-initial-value"] += 1
         for f in rec["forms"].values():
-            ctx.dist[f"e2e:after-form={f}"] += 1
+            ctx.dist[f"e2e:form={f}"] += 1
         for t in s["tasks"]:
             for sp in t.get("spell", {}).values():
                 ctx.dist[f"e2e:spelling={sp}"] += 1
@@ -369,8 +386,8 @@ def check_e2e(ctx, cases):
         rep = {"layer": "e2e", "spec": s, "tag": tag}
         desc = (f"tasks {[[t['id'], t['deps'], t['prods'], t['after']] for t in s['tasks']]}, py {s.get('py')}, pickle {s.get('pk')}, "
                 f"directory nodes {s.get('dirs')}, in-memory nodes with initial value {sorted(s.get('pyval') or {})}, "
-                f"dependency forms {[t.get('dep_form', 'bare') for t in s['tasks']]}, after forms {rec['forms']}, "
-                f"markers {[t.get('marks', []) for t in s['tasks']]}, bare @task {[bool(t.get('force_task')) for t in s['tasks']]}, module folders {bool(s.get('subdirs'))}, options {s.get('opts')}")
+                f"dependency forms {[t.get('dep_form', 'bare') for t in s['tasks']]}, declaration forms {rec["forms"]}, "
+                f"interface {s.get('iface', 'paths')}, markers {[t.get('marks', []) for t in s['tasks']]}, bare @task {[bool(t.get('force_task')) for t in s['tasks']]}, module folders {bool(s.get('subdirs'))}, options {s.get('opts')}")
         if obs.get("raised") or obs.get("died"):
             ctx.violation(f"build() raised {obs.get('raised')} ({desc})", dict(rep, expect="no-raise"), None)
             continue
